@@ -68,6 +68,12 @@ type caseDesc struct {
 	Seed      int64   `json:"seed"`
 	Interval  int64   `json:"interval_ns,omitempty"`
 	Jitter    float64 `json:"jitter,omitempty"`
+	// QueriedFirst: the liveness task asks for the peer's level before the peer
+	// was ever heard from (a node learned from a third party). How that first
+	// window is seeded is not part of the property, so levels are compared only
+	// once the window holds nothing but real inter-arrival times (after W+1
+	// arrivals); from then on the peer is like any other.
+	QueriedFirst bool `json:"queried_first,omitempty"`
 }
 
 func close9(got float64, want *big.Rat) bool {
@@ -90,6 +96,14 @@ func runCase(c caseDesc, queries *int64) (string, string) {
 	t := int64(r.Intn(1000))
 	iv := c.Interval
 	var trace []int64
+	if c.QueriedFirst {
+		if got := fd.SuspicionAt("p", at(t)); math.IsNaN(got) || math.IsInf(got, 0) || got < 0 {
+			return "never-heard-level", fmt.Sprintf("%+v: level %v for a never-heard peer", c, got)
+		}
+		*queries++
+		t += 1 + r.Int63n(1+c.Bootstrap)
+	}
+	comparable := func(i int) bool { return !c.QueriedFirst || i >= c.W+1 }
 	for i := 0; i < c.Arrivals; i++ {
 		var d int64
 		switch c.Regime {
@@ -118,11 +132,11 @@ func runCase(c caseDesc, queries *int64) (string, string) {
 			got := fd.SuspicionAt("p", at(t))
 			*queries++
 			want := rf.level(t)
-			if !close9(got, want) {
+			if comparable(i) && !close9(got, want) {
 				wf, _ := want.Float64()
 				return "level-mismatch", fmt.Sprintf("%+v: before arrival %d (t=%d) level=%v, silence/mean of last %d intervals gives %v; intervals %v", c, i, t, got, len(rf.ivs), wf, rf.ivs)
 			}
-			if (c.Regime == "steady" || c.Regime == "jitter") && got >= 20 {
+			if comparable(i) && (c.Regime == "steady" || c.Regime == "jitter") && got >= 20 {
 				return "steady-peer-suspected", fmt.Sprintf("%+v: steady peer reached level %v before arrival %d", c, got, i)
 			}
 		}
@@ -139,11 +153,14 @@ func runCase(c caseDesc, queries *int64) (string, string) {
 			q := t + r.Int63n(1+int64(1)<<uint(r.Intn(36)))
 			got := fd.SuspicionAt("p", at(q))
 			*queries++
-			if want := rf.level(q); !close9(got, want) {
+			if want := rf.level(q); comparable(i+1) && !close9(got, want) {
 				wf, _ := want.Float64()
 				return "level-mismatch", fmt.Sprintf("%+v: after arrival %d query at +%d level=%v, expected %v; intervals %v", c, i, q-t, got, wf, rf.ivs)
 			}
 		}
+	}
+	if !comparable(c.Arrivals) {
+		return "", ""
 	}
 	// silence: strictly beyond 20 * mean the level exceeds the threshold,
 	// and it grows monotonically
@@ -237,6 +254,10 @@ func genCase(seed int64) caseDesc {
 	}
 	lens := []int{1, 2, w, w + 1, w + 2, 2*w + 1, 5*w + 3, r.Intn(5*w + 4)}
 	c.Arrivals = 1 + lens[r.Intn(len(lens))]
+	if r.Intn(4) == 0 {
+		c.QueriedFirst = true
+		c.Arrivals += w + 1
+	}
 	return c
 }
 
@@ -262,6 +283,9 @@ func run(sh *core.Shard, a props.Args) {
 		if i < 3 {
 			sh.Sample(c)
 		}
+		if c.QueriedFirst {
+			sh.Count("queried_before_heard_cases", 1)
+		}
 		if c.Arrivals > c.W+1 {
 			sh.Nontrivial(core.Hash(c.W, c.Bootstrap, c.Regime, c.Arrivals, c.Seed))
 			sh.Count("window_wrapped_cases", 1)
@@ -276,12 +300,12 @@ func run(sh *core.Shard, a props.Args) {
 func init() {
 	props.Register(&props.Prop{
 		ID: "C12", Level: "exploration",
-		Rule: "seeded strictly increasing arrival sequences (length 1..5W+3, W in {1,2,3,7,50}, regimes steady/jitter/bursty/drift/random, intervals 1 ns .. hours) fed to the real accrualFailureDetector with explicit timestamps; every query compared with an exact big.Rat reference (silence x n / sum of the last W intervals, first sample = bootstrap); zero at arrival; steady peers stay below 20; silence beyond 20 x mean exceeds 20; histories sharing the last W intervals give identical levels; never-heard peers: contract only. Integration leg: the real detector behind the real clusterState.UpdateLiveness and packet listener on a virtual clock (2-3 peers, heartbeat and silence phases, delta datagrams as arrivals, a tick per gossip interval): at every tick a heard peer is flagged unreachable iff the reference level exceeds the threshold, so a silent peer stays flagged until it is heard again. Non-trivial = the sequence is longer than the window (eviction happened); distinct = hash of the case parameters.",
+		Rule: "seeded strictly increasing arrival sequences (length 1..5W+3, W in {1,2,3,7,50}, regimes steady/jitter/bursty/drift/random, intervals 1 ns .. hours) fed to the real accrualFailureDetector with explicit timestamps; every query compared with an exact big.Rat reference (silence x n / sum of the last W intervals, first sample = bootstrap); zero at arrival; steady peers stay below 20; silence beyond 20 x mean exceeds 20; histories sharing the last W intervals give identical levels; never-heard peers: contract only; a quarter of the cases query the peer before its first arrival (a node learned from a third party) and are compared with the reference once the window holds only real inter-arrival times. Integration leg: the real detector behind the real clusterState.UpdateLiveness and packet listener on a virtual clock (2-3 peers, heartbeat and silence phases, delta datagrams as arrivals, a tick per gossip interval): at every tick a heard peer is flagged unreachable iff the reference level exceeds the threshold, so a silent peer stays flagged until it is heard again. Non-trivial = the sequence is longer than the window (eviction happened); distinct = hash of the case parameters.",
 		Assumptions: []string{
 			"steady-peer claim asserted only when the bootstrap interval is within 8x of the peer's interval (piko configures 2x the gossip interval)",
 			"timestamps supplied through ReportWithTimestamp/SuspicionLevelAt; Report()/SuspicionLevel() only add time.Now()",
 		},
-		RequireCounters: []string{"queries", "window_wrapped_cases", "liveness_ticks", "liveness_ticks_with_flagged_peer"},
+		RequireCounters: []string{"queries", "window_wrapped_cases", "liveness_ticks", "liveness_ticks_with_flagged_peer", "queried_before_heard_cases"},
 		Timeout: func(t string) time.Duration {
 			if t == "thorough" {
 				return 60 * time.Minute
